@@ -41,7 +41,7 @@ func init() {
 		Shrink:     shrinkC13,
 		Workers:    8,
 		Assumptions: []string{
-			"the second validation uses a fresh RequestValidationInput on the same *http.Request, after the 'next handler' has read the body and a reader over the same bytes has been put back",
+			"the second validation uses a fresh RequestValidationInput (or, with reuseInput, the very same one) on the same *http.Request, after the 'next handler' has read the body and a reader over the same bytes has been put back",
 			"numbers in bodies, defaults and parameters are integers; strings are short alphanumeric words (text↔number conversion, JSON encoding and cookie/query escaping are trusted)",
 			"defaults are scalars or arrays of scalars (an object default is inserted by reference and would be mutated inside the shared document: that is C15's subject)",
 			"ContentLength is compared only when the incoming value was known (≥ 0); an unchanged body that is re-encoded compares equal as JSON",
@@ -260,8 +260,11 @@ func c13Request(c map[string]any, env *c13Env) (*http.Request, []byte, bool) {
 	return req, data, true
 }
 
-func c13Store(req *http.Request) map[string]any {
+func c13Store(req *http.Request, path map[string]string) map[string]any {
 	out := map[string]any{}
+	for k, v := range path {
+		out["path:"+k] = []any{v}
+	}
 	for k, vs := range req.URL.Query() {
 		l := []any{}
 		for _, v := range vs {
@@ -329,9 +332,17 @@ func runC13(c0 hx.Case) any {
 	rawQuery0 := req.URL.RawQuery
 	hdr0 := req.Header.Clone()
 	clKnown := jstr(jmap(c["stream"]), "cl") != "unknown"
+	reuse := jbool(c, "reuseInput")
+	var shared *openapi3filter.RequestValidationInput
 	pass := func() map[string]any {
 		seenFull = true
 		in := &openapi3filter.RequestValidationInput{Request: req, PathParams: env.path, Route: env.route, Options: o}
+		if reuse {
+			if shared == nil {
+				shared = in
+			}
+			in = shared
+		}
 		err := openapi3filter.ValidateRequest(context.Background(), in)
 		obs := map[string]any{"ok": err == nil, "json": nil, "clIsLen": nil, "getBodyOK": true, "seenFull": seenFull}
 		if err != nil {
@@ -375,7 +386,7 @@ func runC13(c0 hx.Case) any {
 			req.Body = &c13Reader{bytes.NewReader(b)}
 			current = b
 		}
-		obs["store"] = c13Store(req)
+		obs["store"] = c13Store(req, env.path)
 		obs["rawQuerySame"] = req.URL.RawQuery == rawQuery0
 		same := len(req.Header) == len(hdr0)
 		for k, v := range hdr0 {
